@@ -17,6 +17,27 @@ CH_NOTE = ("Trusted: CPython, CrossHair 0.0.110's models of int/bool/str primiti
            "replayed under /venv/bin/python without CrossHair before it is reported.")
 
 CLAIMS = {
+    'C10': dict(
+        engine='CH',
+        technique='solver-driven path exploration with CrossHair/z3 (finite-choice inputs fixed by solver-decided forks, '
+                  'exhaustion certified by the solver) of the real comment-block parser and writer on block texts '
+                  'rendered from a model and a layout; counterexamples replayed concretely',
+        category='model_checking',
+        text='A block model (7 identifier forms; 9 identifier and 14 parameter/return annotation lists covering list '
+             'options, key=value options, unknown annotations, GI type strings; parameter sets incl. "..."; absent, '
+             'one-line, wrapped, colon/parenthesis-bearing and non-ASCII descriptions; block descriptions with '
+             'paragraphs, embedded indented code, trailing colon; Returns/Since/Deprecated/Stability with and without '
+             'text) is rendered under a layout (5 indentations before the asterisk, LF/CRLF/CR, annotations on one or on '
+             'several lines, optional colon after annotations, continuation lines with and without extra indentation) and '
+             'parsed by the real GtkDocCommentBlockParser (whole state machine, every line pattern, the annotation '
+             'tokenizer, validation): identifier, annotations with options in order, parameters, descriptions and tags '
+             'must equal the model for every layout; the parsed block written by GtkDocCommentBlockWriter and parsed again '
+             'must be the same block. CrossHair "Confirmed over all paths" per partition (quick ~47k blocks).',
+        design_ref='DESIGN.md section 4, C10',
+        note=CH_NOTE + ' Finite-choice inputs are fixed by solver-decided binary search (vlib/sym.py). The vocabulary of '
+             'names, annotation lists and texts is chosen; arbitrary strings are outside the bounds (CrossHair on '
+             'symbolic strings through the regex-driven state machine is not usable, DESIGN section 1). Action '
+             'identifiers, deprecated tag-style annotations and SECTION blocks with parameters are not part of this check.'),
     'C16': dict(
         engine='CH',
         technique='solver-driven path exploration of the real scanner pipeline with CrossHair/z3 over permutation '
